@@ -522,13 +522,13 @@ func runC07(t *testing.T, tape *simrt.Tape, env dst.Env) *simrt.Outcome {
 				case 3:
 					// (not exactly 300/30 s: the type bits and the delivery time put the
 					// exact boundary on either side)
-					age := simrt.Pick(tape, simrt.Fault, 1, 299, 301, 600, 86400)
-					o.id = mkID(now.Add(-time.Duration(age)*time.Second), o.idType)
-					accept, why = age <= 300, fmt.Sprintf("created %d s in the past", age)
+					age := simrt.Pick(tape, simrt.Fault, 1000, 299000, 300500, 301000, 600000, 86400000) // ms
+					o.id = mkID(now.Add(-time.Duration(age)*time.Millisecond), o.idType)
+					accept, why = age <= 300000, fmt.Sprintf("created %d ms in the past", age)
 				case 4:
-					ahead := simrt.Pick(tape, simrt.Fault, 1, 29, 31, 3600)
-					o.id = mkID(now.Add(time.Duration(ahead)*time.Second), o.idType)
-					accept, why = ahead <= 30, fmt.Sprintf("created %d s in the future", ahead)
+					ahead := simrt.Pick(tape, simrt.Fault, 1000, 29000, 30500, 31000, 3600000) // ms
+					o.id = mkID(now.Add(time.Duration(ahead)*time.Millisecond), o.idType)
+					accept, why = ahead <= 30000, fmt.Sprintf("created %d ms in the future", ahead)
 				case 5, 6:
 					if len(accepted) > 0 {
 						// replay of an accepted frame: one of the last 8 accepted
